@@ -432,7 +432,7 @@ func racePass() {
 		if strings.Contains(pl.Scenario, "huge") {
 			continue
 		}
-		for rep := 0; rep < 40; rep++ {
+		for rep := 0; rep < 150; rep++ {
 			in := &inst{p: p}
 			w := &recW{in: in}
 			var mu sync.Mutex
